@@ -580,16 +580,16 @@ func c07WritersGen(t *rapid.T) C07Writers {
 		if chance(t, "swap", 50) {
 			a, b = b, a
 		}
-		if chance(t, "tonil", 25) {
+		if chance(t, "tonil", 40) {
 			// the transition to passthrough with debug ON beforehand, racing with a call that depends on or sets the
 			// debug flag: two rounds whose calls are identical (hence deterministic) establish (cfgK, debug on) first
 			k := intIn(t, "cfgk", 1, 4)
 			c.Rounds = append(c.Rounds, [2]COp{{Kind: "reconf", Cfg: k}, {Kind: "reconf", Cfg: k}}, [2]COp{{Kind: "debug", On: true}, {Kind: "debug", On: true}})
 			a = COp{Kind: "reconf_nil"}
-			switch uniform(t, "against", 3) {
+			switch uniform(t, "against", 4) {
 			case 0:
 				b = COp{Kind: "debug", On: true}
-			case 1:
+			case 1, 2:
 				b = COp{Kind: "reconf", Cfg: intIn(t, "cfgn", 1, 4)}
 			default:
 				b = COp{Kind: "debug", On: false}
@@ -655,6 +655,30 @@ func c07WritersCheck(c C07Writers, rec *Recorder) *Disc {
 	s := dbgState{cfg: 1}
 	m := freshMW(s)
 	const nReaders = 5
+	// how long a call takes before it reaches the lock (validation of the configuration), measured once per
+	// configuration: the timing sweep below is centred on the instant at which both calls would reach it together
+	var cost [c07NCfg + 1]time.Duration
+	{
+		scratch := new(cors.Middleware)
+		for k := 1; k <= c07NCfg; k++ {
+			best := time.Hour
+			for rep := 0; rep < 4; rep++ {
+				cfg := c07Pool[k].Cors()
+				t0 := time.Now()
+				_ = scratch.Reconfigure(&cfg)
+				if d := time.Since(t0); d < best {
+					best = d
+				}
+			}
+			cost[k] = best
+		}
+	}
+	costOf := func(o COp) time.Duration {
+		if o.Kind == "reconf" {
+			return cost[o.Cfg]
+		}
+		return 0
+	}
 	for i, round := range c.Rounds {
 		start := make(chan struct{})
 		var wg, rg sync.WaitGroup
@@ -679,8 +703,16 @@ func c07WritersCheck(c C07Writers, rec *Recorder) *Disc {
 			// sweep the relative timing of the two calls: a call that validates a configuration reaches the lock
 			// microseconds after one that does not, so one of the two is held back by 0-12 us (a function of the round)
 			var hold time.Duration
-			if j == i%2 {
-				hold = time.Duration((i/2)%50) * 250 * time.Nanosecond
+			if i%4 < 2 {
+				if j == i%2 {
+					hold = time.Duration((i/4)%50) * 250 * time.Nanosecond
+				}
+			} else if other := round[1-j]; costOf(other) > costOf(o) {
+				// the quicker call is held back by the difference of the two costs, plus -3..+3 us in steps of 125 ns
+				hold = costOf(other) - costOf(o) + time.Duration((i/4)%49-24)*125*time.Nanosecond
+				if hold < 0 {
+					hold = 0
+				}
 			}
 			wg.Add(1)
 			go func() {
@@ -762,7 +794,7 @@ func c07WritersCheck(c C07Writers, rec *Recorder) *Disc {
 
 func TestC07Writers(t *testing.T) {
 	Prop[C07Writers]{ID: "C07", Part: "writers", Gen: c07WritersGen, Check: c07WritersCheck,
-		Rule: "(c) two concurrent writers and five concurrent readers (each repeating one kind of observation; the relative timing of the two calls is swept over 0-12 us): 300-3000 rounds; in each round two calls (Reconfigure to one of 7 configurations (one with 300 origin patterns, two grown from others) / nil / invalid, SetDebug; 60% of rounds pair a configuration change with a debug change; 25% are preceded by two deterministic rounds establishing (cfgK, debug on) and then race Reconfigure(nil) against SetDebug or Reconfigure(cfg)) are released at the same instant on two goroutines; " +
+		Rule: "(c) two concurrent writers and five concurrent readers (each repeating one kind of observation; the relative timing of the two calls is swept: one call held back by 0-12 us, or the quicker call held back by the measured difference of the two calls' validation times -3..+3 us): 300-3000 rounds; in each round two calls (Reconfigure to one of 7 configurations (one with 300 origin patterns, two grown from others) / nil / invalid, SetDebug; 60% of rounds pair a configuration change with a debug change; 40% are preceded by two deterministic rounds establishing (cfgK, debug on) and then race Reconfigure(nil) against SetDebug or Reconfigure(cfg)) are released at the same instant on two goroutines; " +
 			"a serial order of the two calls must explain BOTH the final state (Config() and the answers to the 14 requests equal those of a fresh middleware in the state that order ends in) AND every observation the readers made meanwhile (each must be one of the three states that order passes through); lost updates and transient never-current states are thereby visible; whenever a round ends in passthrough, a quiescent Reconfigure(cfg1) follows and must give (cfg1, debug off), which reveals a debug flag wrongly kept by a passthrough middleware. Runs under the race detector. " +
 			"evaluations = rounds; non-trivial = every drawn round sequence; distinct by sequence.",
 		Assumptions: []string{"schedule-dependent like the stress part: a lost update needs the two calls to overlap"}}.Run(t)
